@@ -195,7 +195,7 @@ def cases(tier, seed):
         for _ in range(reps):
             out.append(_draw(gen.rng_for(1010, i), pair, sub))
             i += 1
-    nrand = 420 if tier == "quick" else 13000
+    nrand = 420 if tier == "quick" else 12000
     for j in range(nrand):
         out.append(_draw(gen.rng_for(seed, 10, j)))
     return out
